@@ -29,6 +29,8 @@ def plan(tier, seed):
         specs.append(dict(name="entry-%d" % p, mode="interp", what="entry", n=n, seed=[seed, 33, p]))
     for p, n in enumerate(common.split_counts(100 if q else 1200, 5 if q else 12)):
         specs.append(dict(name="phase-%d" % p, mode="interp", what="phase", n=n, seed=[seed, 333, p]))
+    # the optimisation phase (with its covariance floor) also in an interpreter started with -O (assert statements compiled away)
+    specs.append(dict(name="phase-O", mode="interp", what="phase", n=20 if q else 100, seed=[seed, 333, 97], env={"PYTHONOPTIMIZE": "1"}))
     return specs
 
 
